@@ -12,7 +12,7 @@ from .threads_common import run_clients
 
 NAME = "T9"
 PROPERTY = "C09"
-RUNS = {"quick": 96, "thorough": 4000}
+RUNS = {"quick": 64, "thorough": 4000}
 RUN_WALL_CAP = 120.0
 REQUIRED_PROBES = {"quick": ["same_shape_objects_in_two_clients", "interleaved_calls_compared"], "thorough": ["same_shape_objects_in_two_clients", "interleaved_calls_compared"]}
 COMPONENTS = {"real": ["toqito.nonlocal_games.ExtendedNonlocalGame (unentangled, NPA level 1, non-signaling) and QuantumHedging (four value methods) called from 2 real threads (own objects each)", "cvxpy + SCS/Clarabel (never pre-empted)"], "stub": ["thread scheduling: baton passing, pre-emption at every Python line of toqito code, decided by the choice source"]}
